@@ -15,11 +15,14 @@ import NeoModel.Proofs.QueueChain
 import NeoModel.Proofs.QueueReach
 import NeoModel.Proofs.QueueCounters
 import NeoModel.Proofs.QueueFair
+import NeoModel.Proofs.QueueNoExt
 import NeoModel.Model.StateSync
 import NeoModel.Proofs.StateSyncRestore
 import NeoModel.Proofs.StateSyncRebuild
 import NeoModel.Proofs.StateSyncMerkle
 import NeoModel.Proofs.StateSyncItems
+import NeoModel.Proofs.BilletProgress
+import NeoModel.Proofs.SyncStageInv
 namespace NeoModel.Queue
 
 private def el (i t : Nat) : Elem := { idx := i, tag := t, ok := true }
@@ -291,6 +294,41 @@ theorem queue_len_drift_witness :
     lastQueued s = (5, 3) := by
   exact ⟨(calm_iff _ _).2 (by decide), by decide, by decide, by decide, by decide⟩
 
+/-- C20 (queue, the schedule classes of the three findings). (1) `stuck-ext` needs an external writer: in
+every interleaving WITHOUT an external addition and without Discard (every block goes through `Put`, from any
+number of producers with arbitrarily stale heights, duplicates, invalid elements), whenever every index in
+`(height, m]` has a valid element in its slot, `Run` alone brings the chain to `m` — it is never asleep
+without a pending signal while the next block is queued. (2) `additem-ahead-ext` needs an external addition
+between `Run`'s height read and its lock section: `queue_offers_only_next`. (3) `len-drift` needs a producer
+whose stale height lets an index pass the window check that the chain has already passed (or an external
+writer): `queue_len_drift_witness` is such a schedule, and by `queue_counters_write_only` the drift touches
+nothing but what `LastQueued` reports. The harness keys a failure as the known finding only inside its class;
+the same symptom outside it is reported as a new defect (`stuck`, `additem-ahead`, `len-drift-fresh`). -/
+theorem queue_no_external_writer_never_stuck (cap h0 : Nat) (hc : 0 < cap) (as : List Act) (hn : NoExt as)
+    (m : Nat) :
+    let s := exec (init cap h0) as
+    Filled s m → ∃ n, m ≤ (runN n s).height := by
+  intro s hf
+  by_cases hlt : s.height < m
+  · obtain ⟨hk, _, _⟩ := sleepy_exec (init cap h0) as (inv_init cap h0 hc) (fresh_init cap h0) (sleepy_init cap h0) hn
+    obtain ⟨x, hx, _, _⟩ := hf (s.height + 1) (by omega) (by omega)
+    exact queue_reaches cap h0 hc as (calm_of_noExt _ as hn) m hf (active_of_sleepy s hk x hx)
+  · exact ⟨0, by simp only [runN]; omega⟩
+
+-- non-vacuity: three producers, out of order, a duplicate with a stale height, no external writer
+example :
+    let as : List Act := [.put (el 2 0) 0, .run, .put (el 3 1) 0, .run, .run, .run, .put (el 1 2) 0, .put (el 1 3) 0]
+    let s := exec (init 4 0) as
+    NoExt as ∧ Filled s 3 ∧ (runN 17 s).height = 3 := by
+  refine ⟨by simp [NoExt], ?_, by decide⟩
+  intro i h1 h2
+  have h1' : 0 < i := h1
+  have : i = 1 ∨ i = 2 ∨ i = 3 := by omega
+  rcases this with rfl | rfl | rfl
+  · exact ⟨el 1 2, by decide, rfl, rfl⟩
+  · exact ⟨el 2 0, by decide, rfl, rfl⟩
+  · exact ⟨el 3 1, by decide, rfl, rfl⟩
+
 end NeoModel.Queue
 
 namespace NeoModel.StateSync
@@ -320,8 +358,8 @@ the restored positions; and no pending position has its node in the store alread
 (2) once the pool is empty, the restored positions are exactly the positions of the trie: every node of the
 trie is in the store, the counter of `h` equals the number of positions of `h`, and the temporary storage is
 exactly the key-value content of the trie.
-(`Billet.RestoreHashNode`'s walk through the in-memory billet is represented by its contract, see
-Model/StateSync.lean; its agreement with the real billet is what the `sync` stream checks.) -/
+(Here `Billet.RestoreHashNode` is represented by its contract, Model/StateSync.lean; Part (b') below proves the
+same for the module over the billet itself, `billet_module_exact`.) -/
 theorem billet_restore_exact (H : SNode → Hash) (hinj : ∀ a b, H a = H b → a = b)
     (db : Hash → Option SNode) (root : Hash) (hkey : ∀ h m, db h = some m → H m = h)
     (wf : WF db root) (rk : Hash → Nat) (hrk : Ranked db rk) (fuel : Nat)
@@ -434,7 +472,7 @@ example :
     s.pool = [] ∧ s.done = [(0, []), (2, [1]), (2, [2]), (1, [0])] ∧ s.refs 2 = 2 := by decide
 
 -- the example table meets the shape hypotheses (rank: root 1, leaves 0)
-example : Ranked exDb (fun h => if h = 0 then 1 else 0) := by
+theorem exDb_ranked : Ranked exDb (fun h => if h = 0 then 1 else 0) := by
   intro h n k hn hk
   match h, hn with
   | 0, hn => cases hn; simp at hk; rcases hk with rfl | rfl | rfl <;> decide
@@ -550,5 +588,524 @@ example :
     acceptsBody [0, 1, 2] [] = false ∧ acceptsBody [0, 1, 2] [0, 1] = false ∧
     acceptsBody [0, 1, 2] [0, 2, 1] = false ∧ acceptsBody [0, 1, 2] [0, 1, 2, 1000] = false ∧
     acceptsBody [0, 1, 2, 3] [0, 1, 2, 3, 3] = false ∧ acceptsBody [0, 1, 2] [0, 1, 2] = true := by decide
+
+end NeoModel.StateSync
+
+namespace NeoModel.StateSync
+
+/-! ## Part (b'): `mpt.Billet` itself — the walk of RestoreHashNode with hash validation and collapse, the
+traversal on restart — model `Model/Billet.lean`, tied to the real Billet by the `bput/btrav/bdump` lines of
+the sync stream and to the real module by its `deliver` lines. -/
+
+/-- What a peer's bytes decode to on the receiver's side (`mpt.NodeObject.DecodeBinary`): a Leaf/Branch/
+Extension node (the receiver computes its hash with `H`), a HashNode (its `Hash()` is the hash it carries),
+an EmptyNode, or nothing (undecodable). -/
+inductive Recv
+  | node (n : SNode)       -- in canonical form (children referenced by hash)
+  | hashNode (h : Hash)
+  | empty
+  | nonCanonical           -- a Branch/Extension node with a child serialised in place
+  | garbage
+
+def recvB (H : SNode → Hash) : Recv → BItem
+  | .node n => .node (H n) n
+  | .hashNode h => .hashNode h
+  | .empty => .empty
+  | .nonCanonical => .nonCanonical
+  | .garbage => .garbage
+
+def recvEvB (H : SNode → Hash) : Option (List Recv) → BEv
+  | some items => .batch (items.map (recvB H))
+  | none => .restart
+
+theorem recvEvB_ok (H : SNode → Hash) (hinj : ∀ a b, H a = H b → a = b) (db : Hash → Option SNode)
+    (hkey : ∀ h m, db h = some m → H m = h) (evs : List (Option (List Recv))) :
+    ∀ e ∈ evs.map (recvEvB H), BEvOk db e := by
+  intro e he
+  simp only [List.mem_map] at he
+  obtain ⟨e0, _, rfl⟩ := he
+  cases e0 with
+  | none => trivial
+  | some items =>
+    intro it hit
+    simp only [List.mem_map] at hit
+    obtain ⟨x, _, rfl⟩ := hit
+    cases x with
+    | node n => intro m hm; exact hinj _ _ (hkey _ m hm).symm
+    | hashNode h => trivial
+    | empty => trivial
+    | nonCanonical => trivial
+    | garbage => trivial
+
+/-- C20 (state sync over the real billet, exactness). The module drives `Billet.RestoreHashNode` (the walk
+through the partially restored in-memory trie along the path, the comparison of the delivered node's hash
+with the HashNode found there, its replacement, the collapse of completely restored subtrees) and rebuilds
+billet and pool by `Billet.Traverse` after a restart. For every source trie (`wf`, `sh`, `hrk`), collision-free
+`H`, and EVERY history of batches — trie nodes in any order and multiplicity, at one or several paths,
+unsolicited and foreign nodes, HashNodes, EmptyNodes, undecodable bytes — and restarts:
+(1) the billet represents exactly the set of restored positions (`Rep`): not-collapsed HashNodes are the
+positions still missing, collapsed ones completely restored subtrees;
+(2) every restored `(hash, path)` is a position of the trie, each once; reference counters = number of
+restored positions of the hash; temporary storage = leaf values of restored positions; no pending position
+is in the store already (the conclusions of `billet_restore_exact`, now for the module over the billet);
+(3) when the pool is empty: the billet has collapsed into the root HashNode, restored = all positions of the
+trie, every node is stored with its number of positions as counter, the storage is the content of the trie. -/
+theorem billet_module_exact (H : SNode → Hash) (hinj : ∀ a b, H a = H b → a = b)
+    (db : Hash → Option SNode) (root : Hash) (hkey : ∀ h m, db h = some m → H m = h)
+    (wf : WF db root) (sh : Shaped db) (rk : Hash → Nat) (hrk : Ranked db rk) (fuel : Nat)
+    (hfuel : ∀ h m, db h = some m → rk h < fuel) (evs : List (Option (List Recv))) :
+    let s := runEvsB db fuel root (BS.init root) (evs.map (recvEvB H))
+    Rep db s.ms.done s.billet root [] ∧
+    (∀ x ∈ s.ms.done, Pos db root x.1 x.2) ∧ s.ms.done.Nodup ∧
+    (∀ h, s.ms.refs h = (s.ms.done.filter (fun x => x.1 == h)).length) ∧
+    (∀ p v, (p, v) ∈ s.ms.temp ↔ ∃ h n, (h, p) ∈ s.ms.done ∧ db h = some n ∧ n.val = some v) ∧
+    (∀ x ∈ s.ms.pool, s.ms.refs x.1 = 0) ∧
+    (s.ms.pool = [] →
+      s.billet = .hash root true ∧
+      (∀ h p, Pos db root h p ↔ (h, p) ∈ s.ms.done) ∧
+      (∀ h, s.ms.refs h = (s.ms.done.filter (fun x => x.1 == h)).length ∧ (∀ p, Pos db root h p → 0 < s.ms.refs h)) ∧
+      (∀ p v, (p, v) ∈ s.ms.temp ↔ ∃ h n, Pos db root h p ∧ db h = some n ∧ n.val = some v)) := by
+  intro s
+  obtain ⟨hb, hcl⟩ := binv_runEvsB db root wf rk hrk sh fuel hfuel _ (BS.init root) (binv_init db root)
+    (clean_init root) (recvEvB_ok H hinj db hkey evs)
+  have hi := hb.inv
+  refine ⟨hb.rep, hi.donePos, hi.doneNodup, hi.refsEq, hi.tempEq, hcl, ?_⟩
+  intro he
+  have hall : ∀ h p, Pos db root h p ↔ (h, p) ∈ s.ms.done :=
+    fun h p => ⟨complete db root s.ms hi he h p, fun hd => hi.donePos _ hd⟩
+  refine ⟨?_, hall, ?_, ?_⟩
+  · exact rep_full db s.ms.done s.billet root [] hb.rep
+      (fun y hy => (hall y.1 y.2).1 (hy.pos db root Pos.root))
+  · intro h
+    refine ⟨hi.refsEq h, fun p hp => ?_⟩
+    rw [hi.refsEq]
+    apply List.length_pos_of_mem (a := (h, p))
+    simp only [List.mem_filter, beq_self_eq_true, and_true]
+    exact (hall h p).1 hp
+  · intro p v
+    rw [hi.tempEq]
+    constructor
+    · rintro ⟨h, n, hd, hn, hv⟩; exact ⟨h, n, (hall h p).2 hd, hn, hv⟩
+    · rintro ⟨h, n, hp, hn, hv⟩; exact ⟨h, n, (hall h p).1 hp, hn, hv⟩
+
+/-- C20 (the billet accepts exactly what is pending; wrong data is rejected without change). In every state
+reached by such a history, `RestoreHashNode(path, node)` with a node of hash `hv` succeeds **iff** `(hv, path)`
+is a position of the trie that is not restored yet and whose parent is (or the root) — whatever else is
+offered (a node at a path where another hash is expected, at a path that is already restored or collapsed,
+below a missing node, at a path of no position; a HashNode or EmptyNode at any path) is answered with an
+error or a panic, and then billet, store and temporary storage are untouched (the result carries no new
+state). A success adds exactly one reference to `hv`. -/
+theorem billet_accepts_iff (H : SNode → Hash) (hinj : ∀ a b, H a = H b → a = b)
+    (db : Hash → Option SNode) (root : Hash) (hkey : ∀ h m, db h = some m → H m = h)
+    (wf : WF db root) (sh : Shaped db) (rk : Hash → Nat) (hrk : Ranked db rk) (fuel : Nat)
+    (hfuel : ∀ h m, db h = some m → rk h < fuel) (evs : List (Option (List Recv)))
+    (path : Path) (n : SNode) :
+    let s := runEvsB db fuel root (BS.init root) (evs.map (recvEvB H))
+    ((∃ s', restoreHashNode s path (H n) n = .ok s') ↔ Pending db root s.ms.done (H n, path)) ∧
+    (∀ s', restoreHashNode s path (H n) n = .ok s' → s'.ms.refs = bump s.ms.refs (H n)) ∧
+    (∀ it, (∃ s', restoreHashNodeItem s path it = .ok s') → ∃ h m, it = .node h m) := by
+  intro s
+  obtain ⟨hb, _⟩ := binv_runEvsB db root wf rk hrk sh fuel hfuel _ (BS.init root) (binv_init db root)
+    (clean_init root) (recvEvB_ok H hinj db hkey evs)
+  have hd := dok_of_inv db root _ hb.inv
+  have hsound : ∀ s', restoreHashNode s path (H n) n = .ok s' →
+      Reach db s.ms.done (root, []) path (H n, path) ∧ (H n, path) ∉ s.ms.done ∧ s'.ms.refs = bump s.ms.refs (H n) := by
+    intro s' hs
+    simp only [restoreHashNode] at hs
+    cases hp : putIntoNode s.ms.refs s.billet path (H n) n with
+    | err e => rw [hp] at hs; cases hs
+    | panic => rw [hp] at hs; cases hs
+    | ok a =>
+      obtain ⟨t', r'⟩ := a
+      rw [hp] at hs
+      simp only [BRes.ok.injEq] at hs
+      obtain ⟨g1, g2, g3⟩ := put_sound db s.ms.done s.ms.refs (H n) n s.billet root [] path t' r' hb.rep hp
+      refine ⟨by simpa using g1, by simpa using g2, ?_⟩
+      rw [← hs]; exact g3
+  refine ⟨⟨?_, ?_⟩, fun s' hs => (hsound s' hs).2.2, ?_⟩
+  · rintro ⟨s', hs⟩
+    obtain ⟨g1, g2, _⟩ := hsound s' hs
+    refine ⟨(g1.toBelow db).pos db root Pos.root, g2, ?_⟩
+    -- the last step of the walk comes from a restored node
+    have par : ∀ {a : Hash × Path} {q : Path} {x : Hash × Path}, Reach db s.ms.done a q x →
+        x = a ∨ ∃ y ∈ s.ms.done, IsKidOf db x y := by
+      intro a q x hr
+      induction hr with
+      | here => exact .inl rfl
+      | @down h p n' k rest x hin hn hk _ ih =>
+        rcases ih with rfl | h2
+        · exact .inr ⟨(h, p), hin, n', k, hn, hk, rfl⟩
+        · exact .inr h2
+    exact par g1
+  · intro hp
+    have hn : db (H n) = some n := by
+      obtain ⟨m, hm⟩ := wf.closed _ _ hp.pos
+      have hmn : m = n := hinj _ _ (hkey _ m hm)
+      rw [hmn] at hm; exact hm
+    obtain ⟨b, h1, _⟩ := restoreHashNode_ok db root wf rk hrk sh s hd hb.rep (H n) path n hp hn
+    exact ⟨_, h1⟩
+  · rintro it ⟨s', hs⟩
+    cases it with
+    | node h m => exact ⟨h, m, rfl⟩
+    | hashNode h => simp [restoreHashNodeItem] at hs
+    | empty => simp [restoreHashNodeItem] at hs
+    | nonCanonical => simp [restoreHashNodeItem] at hs
+    | garbage => simp [restoreHashNodeItem] at hs
+
+/-- C20 (the module over the billet never fails on honest data, never panics on anything). In every state
+reached by such a history, one more `AddMPTNodes` batch of anything never ends in a panic, and it ends with an
+error only if it contains something that is not a Leaf/Branch/Extension node in canonical form (undecodable
+bytes, a HashNode, an EmptyNode, a node with a child serialised in place): a batch of nodes — requested or not,
+genuine or foreign, in any number and order — is processed without error, i.e. `RestoreHashNode` succeeds for
+every `(path, node)` pair the pool hands it, at all of the node's paths. -/
+theorem billet_module_result (H : SNode → Hash) (hinj : ∀ a b, H a = H b → a = b)
+    (db : Hash → Option SNode) (root : Hash) (hkey : ∀ h m, db h = some m → H m = h)
+    (wf : WF db root) (sh : Shaped db) (rk : Hash → Nat) (hrk : Ranked db rk) (fuel : Nat)
+    (hfuel : ∀ h m, db h = some m → rk h < fuel) (evs : List (Option (List Recv))) (items : List Recv) :
+    let s := runEvsB db fuel root (BS.init root) (evs.map (recvEvB H))
+    let r := (deliverB db fuel s (items.map (recvB H))).2
+    r ≠ .panic ∧ (∀ e, r = .err e → ∃ it ∈ items, ∀ n, it ≠ Recv.node n) := by
+  intro s r
+  obtain ⟨hb, hcl⟩ := binv_runEvsB db root wf rk hrk sh fuel hfuel _ (BS.init root) (binv_init db root)
+    (clean_init root) (recvEvB_ok H hinj db hkey evs)
+  have hok : ∀ it ∈ items.map (recvB H), BItemOk db it := by
+    have := recvEvB_ok H hinj db hkey [some items] (.batch (items.map (recvB H))) (by simp [recvEvB])
+    exact this
+  obtain ⟨_, _, g3, g4⟩ := deliverB_inv db root wf rk hrk sh fuel hfuel _ s hb hcl hok
+  refine ⟨g3, fun e he => ?_⟩
+  obtain ⟨it, hit, hn⟩ := g4 e he
+  simp only [List.mem_map] at hit
+  obtain ⟨x, hx, rfl⟩ := hit
+  refine ⟨x, hx, fun n e' => ?_⟩
+  subst e'
+  exact hn _ _ rfl
+
+/-- C20 (progress measure of the MPT stage). `L` is any enumeration of the positions of the trie. The number
+of restored positions never exceeds `L.length`, and every delivery of a node whose hash is requested strictly
+increases it: the measure `L.length − |done|` strictly decreases with each accepted delivery, whatever
+happened before and whatever else is delivered in between (unrequested deliveries leave it unchanged,
+`wrong_data_rejected_harmless`). So at most `L.length` deliveries are ever accepted. -/
+theorem billet_progress (H : SNode → Hash) (hinj : ∀ a b, H a = H b → a = b)
+    (db : Hash → Option SNode) (root : Hash) (hkey : ∀ h m, db h = some m → H m = h)
+    (wf : WF db root) (sh : Shaped db) (rk : Hash → Nat) (hrk : Ranked db rk) (fuel : Nat)
+    (hfuel : ∀ h m, db h = some m → rk h < fuel) (evs : List (Option (List Recv)))
+    (L : List (Hash × Path)) (hL : ∀ h p, Pos db root h p → (h, p) ∈ L) (n : SNode) (q : Path) :
+    let s := runEvsB db fuel root (BS.init root) (evs.map (recvEvB H))
+    let s' := (deliverB db fuel s [.node (H n) n]).1
+    s.ms.done.length ≤ L.length ∧ s'.ms.done.length ≤ L.length ∧
+    ((H n, q) ∈ s.ms.pool → L.length - s'.ms.done.length < L.length - s.ms.done.length) := by
+  intro s s'
+  obtain ⟨hb, hcl⟩ := binv_runEvsB db root wf rk hrk sh fuel hfuel _ (BS.init root) (binv_init db root)
+    (clean_init root) (recvEvB_ok H hinj db hkey evs)
+  have hok : ∀ it ∈ [BItem.node (H n) n], BItemOk db it := by
+    intro it hit
+    simp only [List.mem_singleton] at hit
+    subst hit
+    intro m hm; exact hinj _ _ (hkey _ m hm).symm
+  obtain ⟨hb', _, _, _⟩ := deliverB_inv db root wf rk hrk sh fuel hfuel _ s hb hcl hok
+  have b1 := done_bounded db root s.ms hb.inv L hL
+  have b2 : s'.ms.done.length ≤ L.length := done_bounded db root s'.ms hb'.inv L hL
+  refine ⟨b1, b2, fun hq => ?_⟩
+  have hk : ∀ m, db (H n) = some m → n = m := fun m hm => hinj _ _ (hkey _ m hm).symm
+  obtain ⟨b, h1, _⟩ := restoreNodeB_refines db root wf rk hrk sh fuel s (H n) n hb hk
+  have hs' : s'.ms = restoreNode db fuel s.ms (H n) n := by
+    show (deliverB db fuel s [.node (H n) n]).1.ms = _
+    simp only [deliverB, h1]
+  obtain ⟨m, hm⟩ := wf.closed _ _ (hb.inv.poolPos _ hq)
+  have hfp : 0 < fuel := by have := hfuel _ m hm; omega
+  obtain ⟨f, rfl⟩ : ∃ f, fuel = f + 1 := ⟨fuel - 1, by omega⟩
+  have := done_lt_restoreNode db f s.ms (H n) n q hq
+  rw [hs'] at b2 ⊢
+  omega
+
+/-! Regressions for two defects this check found (fixed in /repo by 5972fdd and 09bd334). -/
+
+-- panic-on-empty-node: the serialisation of an EmptyNode (the single byte 04) used to reach `n.Hash()` and
+-- panic; a HashNode carrying a requested hash reached RestoreHashNode. Both are refused now, with an error,
+-- whatever the state and whether or not the hash is requested; nothing changes.
+example (db : Hash → Option SNode) (fuel : Nat) (s : BS) (rest : List BItem) (h : Hash) :
+    deliverB db fuel s (.empty :: rest) = (s, .err .intoEmptyNode) ∧
+    deliverB db fuel s (.hashNode h :: rest) = (s, .err .intoHashNode) ∧
+    deliverB db fuel s (.nonCanonical :: rest) = (s, .err .notFound) := ⟨rfl, rfl, rfl⟩
+
+-- mpt-incomplete-inlined-child, the OLD rule: a decoded node whose child was serialised in place has the hash of
+-- the genuine node but `GetChildrenPaths` does not list that child; accepted under that hash (i.e. without the
+-- hypothesis `hinj` of the theorems above) it empties the pool while position `(1, [0])` of the trie is neither
+-- restored nor stored. This is why AddMPTNodes now compares the node's canonical bytes with what it received.
+example :
+    let root' : SNode := { val := none, kids := [([1], 2), ([2], 2)] }   -- node 0 with the child under [0] inlined
+    let s := (deliver exDb 5 (MS.init 0) [.node 0 root', .node 2 { val := some 22, kids := [] }]).1
+    s.pool = [] ∧ Pos exDb 0 1 [0] ∧ (1, [0]) ∉ s.done ∧ s.refs 1 = 0 := by
+  refine ⟨by decide, ?_, by decide, by decide⟩
+  exact Pos.kid (k := ([0], 1)) Pos.root (n := { val := none, kids := [([0], 1), ([1], 2), ([2], 2)] }) rfl (by simp)
+
+/-! non-vacuity: the example trie `exDb` (root 0 = branch {0 ↦ leaf 1, 1 ↦ leaf 2, 2 ↦ leaf 2}) meets the shape
+hypotheses, and concrete histories run through the model as the theorems say -/
+
+theorem exDb_pos (h : Hash) (p : Path) : Pos exDb 0 h p ↔ (h, p) ∈ [(0, []), (1, [0]), (2, [1]), (2, [2])] := by
+  constructor
+  · intro hp
+    induction hp with
+    | root => simp
+    | @kid h' p' n k _ hn hk ih =>
+      simp only [List.mem_cons, Prod.mk.injEq, List.mem_nil_iff, or_false] at ih
+      rcases ih with ⟨rfl, rfl⟩ | ⟨rfl, rfl⟩ | ⟨rfl, rfl⟩ | ⟨rfl, rfl⟩
+      · cases hn
+        simp only [List.mem_cons, List.mem_nil_iff, or_false] at hk
+        rcases hk with rfl | rfl | rfl <;> simp
+      · cases hn; cases hk
+      · cases hn; cases hk
+      · cases hn; cases hk
+  · intro hm
+    simp only [List.mem_cons, Prod.mk.injEq, List.mem_nil_iff, or_false] at hm
+    have kid : ∀ k : Path × Hash, k ∈ [([0], 1), ([1], 2), ([2], 2)] → Pos exDb 0 k.2 ([] ++ k.1) :=
+      fun k hk => Pos.kid (n := { val := none, kids := [([0], 1), ([1], 2), ([2], 2)] }) Pos.root rfl hk
+    rcases hm with ⟨rfl, rfl⟩ | ⟨rfl, rfl⟩ | ⟨rfl, rfl⟩ | ⟨rfl, rfl⟩
+    · exact Pos.root
+    · exact kid ([0], 1) (by simp)
+    · exact kid ([1], 2) (by simp)
+    · exact kid ([2], 2) (by simp)
+
+theorem exDb_wf : WF exDb 0 := by
+  have leafKids : ∀ h p n (k : Path × Hash), Pos exDb 0 h p → exDb h = some n → k ∈ n.kids →
+      h = 0 ∧ p = [] ∧ k ∈ [([0], 1), ([1], 2), ([2], 2)] := by
+    intro h p n k hp hn hk
+    rw [exDb_pos] at hp
+    simp only [List.mem_cons, Prod.mk.injEq, List.mem_nil_iff, or_false] at hp
+    rcases hp with ⟨rfl, rfl⟩ | ⟨rfl, rfl⟩ | ⟨rfl, rfl⟩ | ⟨rfl, rfl⟩
+    · cases hn; exact ⟨rfl, rfl, hk⟩
+    · cases hn; cases hk
+    · cases hn; cases hk
+    · cases hn; cases hk
+  refine ⟨?_, ?_, ?_⟩
+  · intro h p hp
+    rw [exDb_pos] at hp
+    simp only [List.mem_cons, Prod.mk.injEq, List.mem_nil_iff, or_false] at hp
+    rcases hp with ⟨rfl, rfl⟩ | ⟨rfl, rfl⟩ | ⟨rfl, rfl⟩ | ⟨rfl, rfl⟩ <;> exact ⟨_, rfl⟩
+  · intro h p n k hp hn hk
+    obtain ⟨rfl, rfl, hk'⟩ := leafKids h p n k hp hn hk
+    simp only [List.mem_cons, List.mem_nil_iff, or_false] at hk'
+    rcases hk' with rfl | rfl | rfl <;> simp
+  · intro h1 p1 n1 k1 h2 p2 n2 k2 hp1 hp2 hn1 hn2 hk1 hk2 _
+    obtain ⟨rfl, rfl, _⟩ := leafKids h1 p1 n1 k1 hp1 hn1 hk1
+    obtain ⟨rfl, rfl, _⟩ := leafKids h2 p2 n2 k2 hp2 hn2 hk2
+    exact ⟨rfl, rfl⟩
+
+theorem exDb_shaped : Shaped exDb := by
+  refine ⟨?_, ?_, ?_, ?_⟩
+  · intro h n hn hv
+    match h, hn with
+    | 0, hn => cases hn; simp at hv
+    | 1, hn => cases hn; rfl
+    | 2, hn => cases hn; rfl
+  · intro h n hn hv
+    match h, hn with
+    | 0, hn => cases hn; simp
+    | 1, hn => cases hn; simp at hv
+    | 2, hn => cases hn; simp at hv
+  · intro h n hn _
+    match h, hn with
+    | 0, hn => cases hn; exact ⟨by decide, by decide⟩
+    | 1, hn => cases hn; exact ⟨by decide, by decide⟩
+    | 2, hn => cases hn; exact ⟨by decide, by decide⟩
+  · intro h n k m hn _ hk hk0 _
+    match h, hn with
+    | 0, hn =>
+      cases hn
+      simp only [List.mem_cons, List.mem_nil_iff, or_false] at hk
+      rcases hk with rfl | rfl | rfl <;> simp at hk0
+    | 1, hn => cases hn; cases hk
+    | 2, hn => cases hn; cases hk
+
+-- a history over the billet: leaf 2 before it is requested, a restart, the root, a HashNode carrying a
+-- requested hash (error, nothing changes), a restart, leaf 2 (restored at both of its paths), garbage, leaf 1:
+-- the pool is empty, the billet has collapsed into the root HashNode, counters and storage are the trie's
+example :
+    let n (i : Nat) : BItem := match exDb i with | some x => .node i x | none => .garbage
+    let s := runEvsB exDb 5 0 (BS.init 0)
+      [.batch [n 2], .restart, .batch [n 0, .hashNode 1, n 1], .restart, .batch [n 2, .garbage], .batch [n 1]]
+    s.ms.pool = [] ∧ s.billet.isCollapsed = true ∧ s.ms.done = [(0, []), (2, [1]), (2, [2]), (1, [0])] ∧
+    s.ms.refs 2 = 2 ∧ s.ms.temp = [([1], 22), ([2], 22), ([0], 11)] := by decide
+
+-- RestoreHashNode on the billet after the root was restored: the pending pair is accepted, another hash at
+-- that path, a path below a missing node, the root again, a HashNode are not
+example :
+    let s := (deliverB exDb 5 (BS.init 0) [.node 0 { val := none, kids := [([0], 1), ([1], 2), ([2], 2)] }]).1
+    (match restoreHashNode s [1] 2 { val := some 22, kids := [] } with | .ok _ => true | _ => false) = true ∧
+    (match restoreHashNode s [1] 1 { val := some 11, kids := [] } with | .err .badHash => true | _ => false) = true ∧
+    (match restoreHashNode s [1, 3] 2 { val := some 22, kids := [] } with | .err .collapsed => true | _ => false) = true ∧
+    (match restoreHashNode s [] 0 { val := none, kids := [([0], 1), ([1], 2), ([2], 2)] } with | .panic => true | _ => false) = true ∧
+    (match restoreHashNode s [7] 2 { val := some 22, kids := [] } with | .err .modifyEmpty => true | _ => false) = true ∧
+    (match restoreHashNodeItem s [1] (.hashNode 2) with | .err .intoHashNode => true | _ => false) = true := by decide
+
+/-! ## Part (c): the stage machine of statesync.Module (headers → MPT nodes → blocks → state jump →
+inactive, restarts anywhere), model `Model/SyncStage.lean` over the billet model; every module call of the
+sync stream (MPT mode) is one `SS.step` of the driver, compared with the real module's answer, stage and pool. -/
+
+/-- What reaches the module, as the receiver decodes it. -/
+inductive SRecv
+  | init
+  | headers (hs : List Hdr)
+  | nodes (items : List Recv)
+  | block (idx : Nat) (genuine : Bool) (body : List Nat)
+
+def srecv (H : SNode → Hash) : SRecv → SMsg
+  | .init => .init
+  | .headers hs => .headers hs
+  | .nodes items => .nodes (items.map (recvB H))
+  | .block i g b => .block i g b
+
+theorem srecv_ok (H : SNode → Hash) (hinj : ∀ a b, H a = H b → a = b) (c : SCfg)
+    (hkey : ∀ h m, c.db h = some m → H m = h) (ms : List SRecv) : ∀ m ∈ ms.map (srecv H), SMsgOk c m := by
+  intro m hm
+  simp only [List.mem_map] at hm
+  obtain ⟨m0, _, rfl⟩ := hm
+  cases m0 with
+  | init => trivial
+  | headers hs => trivial
+  | block i g b => trivial
+  | nodes items =>
+    exact recvEvB_ok H hinj c.db hkey [some items] (.batch (items.map (recvB H))) (by simp [recvEvB])
+
+/-- C20 (state sync, safety for every schedule). `c` describes the source at the sync point `P` (trie, window
+`b0+1..P`, transaction lists), `H` is collision-free. Feed the module ANY sequence of calls: header batches
+(genuine, stale, with gaps, with altered headers), MPT data (trie nodes in any order and number, unsolicited,
+foreign, HashNodes, EmptyNodes, garbage), blocks (any index, a foreign header, the genuine header with another
+transaction list), restarts — from honest and dishonest peers in any interleaving. Then at every moment
+(1) the blocks stored so far are exactly `b0+1, b0+2, …` up to the module's block height, in order, each once
+(none before the MPT stage is over), the jump is made only in stage `inactive`, and while the module is in the
+MPT stage its pool is not empty (it always has something to ask for: no schedule stalls it, b477a41);
+(2) whenever the module is `inactive`: the jump to `P` was made with the header chain beyond `P`, the billet
+collapsed into the root, every position of the source trie restored exactly once (node store with exact
+reference counters, temporary storage = the trie's key-value content) and the stored blocks are exactly the
+window `b0+1..P`;
+(3) a call of AddHeaders / AddBlock that is not answered `ok` leaves the state untouched (for MPT data see
+`billet_accepts_iff`, `wrong_data_rejected_harmless`). -/
+theorem sync_safe (H : SNode → Hash) (hinj : ∀ a b, H a = H b → a = b) (c : SCfg)
+    (hkey : ∀ h m, c.db h = some m → H m = h) (rk : Hash → Nat) (hy : SHyp c rk) (ms : List SRecv) :
+    let s := (SS.init c).run c (ms.map (srecv H))
+    (s.jumped = true ↔ s.stage = .inactive) ∧
+    ((s.stage = .headers ∨ s.stage = .mpt) → s.blocks = []) ∧
+    (s.stage = .mpt → s.bs.ms.pool ≠ []) ∧
+    ((s.stage = .blocks ∨ s.stage = .inactive) → s.blocks = List.range' (c.b0 + 1) (s.bh - c.b0) ∧ s.bh ≤ c.p) ∧
+    (s.stage = .inactive →
+      c.p < s.hh ∧ s.bh = c.p ∧ s.blocks = List.range' (c.b0 + 1) (c.p - c.b0) ∧
+      s.bs.billet = .hash c.root true ∧
+      (∀ h p, Pos c.db c.root h p ↔ (h, p) ∈ s.bs.ms.done) ∧ s.bs.ms.done.Nodup ∧
+      (∀ h, s.bs.ms.refs h = (s.bs.ms.done.filter (fun x => x.1 == h)).length) ∧
+      (∀ p v, (p, v) ∈ s.bs.ms.temp ↔ ∃ h n, Pos c.db c.root h p ∧ c.db h = some n ∧ n.val = some v)) ∧
+    (∀ m, ((∃ hs, m = SMsg.headers hs) ∨ ∃ idx g body, m = SMsg.block idx g body) →
+      (s.step c m).2 ≠ .ok → (s.step c m).1 = s) := by
+  intro s
+  have hi : SInv c s := sinv_run c rk hy _ (SS.init c) (sinv_init c) (srecv_ok H hinj c hkey ms)
+  obtain ⟨hb, hcl, hst⟩ := hi
+  have hi : SInv c s := ⟨hb, hcl, hst⟩
+  have hb0 := hy.hb0
+  refine ⟨?_, ?_, fun hs => by rw [hs] at hst; exact hst.2.2.2.2, ?_, ?_, fun m hm hr => rejected_unchanged c rk hy s hi m hm hr⟩
+  · cases hs : s.stage with
+    | headers => rw [hs] at hst; simp [hst.2.2.2]
+    | mpt => rw [hs] at hst; simp [hst.2.2.2]
+    | blocks => rw [hs] at hst; simp [hst.2.2.2.2.1]
+    | inactive => rw [hs] at hst; simp [hst.2.2.2.1]
+  · rintro (hs | hs) <;> rw [hs] at hst <;> exact hst.2.1
+  · rintro (hs | hs) <;> rw [hs] at hst
+    · exact ⟨hst.2.2.2.2.2.1, by omega⟩
+    · obtain ⟨_, _, h3, _, h5⟩ := hst
+      rw [h3]; exact ⟨h5, Nat.le_refl _⟩
+  · intro hs
+    rw [hs] at hst
+    obtain ⟨h1, h2, h3, _, h5⟩ := hst
+    obtain ⟨e1, e2, e3, e4, e5⟩ := exact_of_empty_pool c.db c.root s.bs hb h2
+    exact ⟨h1, h3, h5, e1, e2, e3, fun h => (e4 h).1, e5⟩
+
+/-- C20 (state sync, convergence under any fair schedule). `Lp` is any enumeration of the positions of the source
+trie. Call a message *serving* if it is what an honest peer answers to the module's current request: headers
+continuing the header chain, MPT data starting with a node the pool asks for, the next block of the window with
+its own transactions (`Useful`); by `sync_safe` the module has such a request open in every stage but `inactive`.
+Let honest and dishonest peers interleave in ANY way — stale, gapped and altered headers, unsolicited / duplicate /
+foreign / undecodable MPT data, HashNodes, EmptyNodes, nodes with inlined children, wrong-index blocks, blocks
+under a foreign header or with another transaction list, restarts at any point. As soon as the history contains
+`(P+1) + (|Lp|+1) + (P−b0)` serving messages — wherever they fall among the junk — the module is `inactive`,
+hence (by `sync_safe`) jumped to exactly the source's state at `P` with exactly the window of blocks. No message
+makes the measure grow: junk never undoes progress. -/
+theorem sync_converges (H : SNode → Hash) (hinj : ∀ a b, H a = H b → a = b) (c : SCfg)
+    (hkey : ∀ h m, c.db h = some m → H m = h) (rk : Hash → Nat) (hy : SHyp c rk)
+    (Lp : List (Hash × Path)) (hL : ∀ h p, Pos c.db c.root h p → (h, p) ∈ Lp) (ms : List SRecv) :
+    let s := (SS.init c).run c (ms.map (srecv H))
+    mu c Lp.length s + served c (SS.init c) (ms.map (srecv H)) ≤ (c.p + 1) + (Lp.length + 1) + (c.p - c.b0) ∧
+    ((c.p + 1) + (Lp.length + 1) + (c.p - c.b0) ≤ served c (SS.init c) (ms.map (srecv H)) → s.stage = .inactive) := by
+  intro s
+  obtain ⟨hi, hmu⟩ := run_spec c rk hy Lp hL _ (SS.init c) (sinv_init c) (srecv_ok H hinj c hkey ms)
+  have h0 : mu c Lp.length (SS.init c) = (c.p + 1) + (Lp.length + 1) + (c.p - c.b0) := by
+    simp [mu, SS.init, BS.init, MS.init]
+  rw [h0] at hmu
+  refine ⟨hmu, fun hge => mu_zero c Lp.length s hi ?_⟩
+  have : mu c Lp.length s + served c (SS.init c) (ms.map (srecv H)) ≤ served c (SS.init c) (ms.map (srecv H)) :=
+    Nat.le_trans hmu hge
+  omega
+
+/-! the example source: the trie `exDb` at sync point 4 with the window 3..4 -/
+def exCfg : SCfg := { p := 4, b0 := 2, root := 0, db := exDb, fuel := 5, ntx := fun _ => 2 }
+
+def exNode (i : Nat) : BItem := match exDb i with | some x => .node i x | none => .garbage
+def exHdrs (a b : Nat) : List Hdr := (List.range (b + 1 - a)).map (fun j => { idx := a + j, genuine := true })
+
+-- non-vacuity: the hypotheses on the source are satisfiable
+example : SHyp exCfg (fun h => if h = 0 then 1 else 0) :=
+  ⟨exDb_wf, exDb_shaped, exDb_ranked, by
+    intro h m hm
+    match h, hm with
+    | 0, _ => decide
+    | 1, _ => decide
+    | 2, _ => decide, by decide⟩
+
+-- non-vacuity: honest answers mixed with junk of every kind and restarts; the module ends inactive with exactly
+-- the window and the whole trie
+example :
+    let s := (SS.init exCfg).run exCfg
+      [.headers (exHdrs 2 3), .headers (exHdrs 1 3), .init, .headers [{ idx := 4, genuine := false }],
+       .nodes [exNode 0], .block 3 true [0, 1], .headers (exHdrs 3 5), .headers (exHdrs 6 7),
+       .nodes [exNode 2, exNode 0, .hashNode 1, exNode 1], .init, .block 3 true [0, 1],
+       .nodes [.node 77 { val := some 1, kids := [] }, exNode 2, .garbage], .nodes [.empty], .nodes [exNode 1],
+       .block 4 true [0, 1], .block 3 false [0, 1], .block 3 true [0, 1, 1], .block 3 true [0, 1], .init,
+       .block 3 true [0, 1], .block 4 true [1, 0], .block 4 true [0, 1]]
+    s.stage = .inactive ∧ s.blocks = [3, 4] ∧ s.jumped = true ∧ s.bs.ms.pool = [] ∧
+    s.bs.ms.done = [(0, []), (2, [1]), (2, [2]), (1, [0])] ∧ s.bs.ms.refs 2 = 2 := by decide
+
+-- Regression for mpt-stalled-empty-pool (fixed by b477a41): the batch that restores the last missing node carries
+-- an undecodable item behind it. AddMPTNodes used to return at the error before it looked at the pool, leaving the
+-- module in the MPT stage with nothing to request; now the call still answers `err`, but the stage has moved on.
+example :
+    let s0 := (SS.init exCfg).run exCfg [.headers (exHdrs 1 5), .nodes [exNode 0], .nodes [exNode 2]]
+    let r := s0.step exCfg (.nodes [exNode 1, .garbage])
+    s0.stage = .mpt ∧ r.2 = .err ∧ r.1.stage = .blocks ∧ r.1.bs.ms.pool = [] ∧ r.1.bh = 2 ∧
+    r.1.bs.ms.done = [(0, []), (2, [1]), (2, [2]), (1, [0])] := by decide
+
+/-! a trie in which leaf 1 occurs twice: root 0 = branch {0 ↦ leaf 1, 1 ↦ branch 3 {0 ↦ leaf 1}} -/
+def exDbTwice : Hash → Option SNode
+  | 0 => some { val := none, kids := [([0], 1), ([1], 3)] }
+  | 1 => some { val := some 11, kids := [] }
+  | 3 => some { val := none, kids := [([0], 1), ([5], 4)] }
+  | 4 => some { val := some 44, kids := [] }
+  | _ => none
+
+/-- FINDING (crash-inside-addmptnodes). The theorems above restart the module between two AddMPTNodes calls.
+The write cache, however, is flushed by a timer of another goroutine, so a crash image can also be the store
+in the middle of one call. Witness: root and leaf 1 are restored (leaf 1 at `[0]`); node 3 arrives; `restoreNode`
+has stored it (module.go:694-703, the model's `restoreStep`) and is about to raise the counter of its child
+leaf 1, which is in the store already (module.go:705-713) — flush, crash. After the restart the traversal of
+`defineSyncStage` takes every stored node as restored: position `(1, [1,0])` is dropped from the pool although
+`RestoreHashNode` never ran for it. Leaf 4 completes the sync: the pool is empty, yet leaf 1 is counted once
+for its two positions and the storage item under `[1,0]` was never written. -/
+theorem crash_inside_restoreNode_witness :
+    let n (i : Nat) : Item := match exDbTwice i with | some x => .node i x | none => .garbage
+    let s1 := (deliver exDbTwice 5 (MS.init 0) [n 0, n 1]).1
+    let crashImage := restoreStep s1 3 { val := none, kids := [([0], 1), ([5], 4)] }
+    let s2 := (deliver exDbTwice 5 (rebuild exDbTwice 5 0 crashImage) [n 4]).1
+    (1, [1, 0]) ∈ crashImage.pool ∧ s2.pool = [] ∧
+    s2.refs 1 = 1 ∧ (s2.done.filter (fun x => x.1 == 1)).length = 1 ∧ ([1, 0], 11) ∉ s2.temp ∧
+    -- the uninterrupted module ends with two references and both items
+    (let t := (deliver exDbTwice 5 (MS.init 0) [n 0, n 1, n 3, n 4]).1
+     t.pool = [] ∧ t.refs 1 = 2 ∧ ([1, 0], 11) ∈ t.temp) := by decide
 
 end NeoModel.StateSync
